@@ -777,14 +777,14 @@ def rule_val_frac(ag, x, r, ea, hole=None):
     return tot
 
 
-def gen_fx_recursive(rng, linear=False, max_q=None, dead=False, scalar_start=False, patterned=False):
+def gen_fx_recursive(rng, linear=False, max_q=None, dead=False, scalar_start=False, patterned=False, mutual=False):
     """A recursive grammar with quarter-valued weights whose least fixed point is `cert` by
     construction (each nonterminal gets a constant rule that makes cert a fixed point)."""
     from fractions import Fraction
     import itertools
     for _ in range(400):
         nls = {'T': 2 if patterned == 'tri' else rng.choice([1, 2, 2])}
-        nnt = rng.choice([1, 2, 2])
+        nnt = 2 if mutual else rng.choice([1, 2, 2])
         ntn = ['S', 'X'][:nnt]
         els = {}
         for i, n in enumerate(ntn):
@@ -831,6 +831,17 @@ def gen_fx_recursive(rng, linear=False, max_q=None, dead=False, scalar_start=Fal
                         wfx[un] = [rng.choice([256, 512, 768])]
                         edges.append({'lab': un, 'att': []})
                 rules.append({'lhs': X, 'nodes': nodes, 'edges': edges, 'ext': ext})
+        if mutual:
+            # S and X depend on each other AND X (or S) on itself: a component of two nonterminals whose block system
+            # has a diagonal (pivot) block -- what an elimination-based solver has to close before it goes on
+            def call(lhs, callee):
+                typ = els[lhs]['type']
+                nodes = list(typ) + ['T'] * len(els[callee]['type'])
+                att = list(range(len(typ) + 1, len(nodes) + 1))
+                return {'lhs': lhs, 'nodes': nodes, 'edges': [{'lab': callee, 'att': att}, {'lab': 'b', 'att': []}], 'ext': list(range(1, len(typ) + 1))}
+            rules += [call('S', 'X'), call('X', 'S'), call(rng.choice(['X', 'X', 'S']), None) if False else call('X', 'X')]
+            if rng.random() < 0.5:
+                rules.append(call('S', 'S'))
         if patterned:
             # a binary nonterminal P whose base rule is an IDENTITY factor (built as a diagonal
             # PatternedTensor): its iterates change sparsity pattern ("tri"), or its sum-product stays a
